@@ -37,6 +37,8 @@ def run(cx):
     inst_resync_guard(cx, "C11.n")
     from props.shared import window_walks
     window_walks(cx, "C11.o")
+    from props.shared import loss_rate_shape
+    loss_rate_shape(cx, "C11.p")
 
 
 def window_limited_still_syncs(cx, iid):
